@@ -298,11 +298,37 @@ func (run *sRun) recoverAndCheck(dir string, pre, post *sModel, opi int, where s
 	fail := func(kind, detail string, a map[string]string) *core.Violation {
 		return sviol(run.prop, kind, where+": "+detail, mergeAttrsS(a, at))
 	}
+	// probes: did the image hold a reorganisation intent log, and which way did start-up resolve it
+	hadLog := false
+	if ents, e := os.ReadDir(filepath.Join(dir, "data", "compact_log")); e == nil && len(ents) > 0 {
+		hadLog = true
+		out.Probes["crash image holds a compaction intent log"]++
+	}
 	node, err := openShard(dir, c.Knobs, uint64(len(run.incDisk)+2+n))
 	if err != nil {
 		return fail("crash_open_failed", "start-up on the crash image failed: "+err.Error(), nil), nil
 	}
 	recJournal := cd.Journal()
+	if hadLog {
+		fw, bw := false, false
+		for _, e := range recJournal {
+			if e.Kind == simfs.KRename && strings.HasSuffix(e.Path, ".tssp.init") {
+				if strings.HasSuffix(e.Path2, ".tssp") {
+					// new files carry .init until committed; old files get .init appended when still in use
+					fw = true
+				}
+			}
+			if e.Kind == simfs.KRemove && strings.HasSuffix(e.Path, ".tssp") {
+				bw = true
+			}
+		}
+		if fw {
+			out.Probes["compaction log recovered: files renamed into place at start-up"]++
+		}
+		if bw {
+			out.Probes["compaction log recovered: files removed at start-up"]++
+		}
+	}
 	defer func() {
 		defer func() { _ = recover() }()
 		_ = node.close()
